@@ -83,21 +83,20 @@ func New(w http.ResponseWriter, r *http.Request, options ...Option) (*ResponseWr
 	switch pathType {
 	case opts.mhPathType:
 		mhStr := strings.TrimSpace(path.Base(r.URL.Path))
-		// Every hex digit but 0 is also a base58 character, so a hex key
-		// without a 0 decodes as base58 too, and what comes out can even be
-		// a well-formed multihash of another kind. A base58 key that is also
-		// the hex form of a well-formed multihash is next to impossible, so
-		// the hex reading is kept whenever it is a well-formed multihash.
-		isHex := false
-		if hb, herr := hex.DecodeString(mhStr); herr == nil {
-			if _, herr = multihash.Decode(hb); herr == nil {
-				b, isHex = hb, true
-			}
+		b, err = base58.Decode(mhStr)
+		if err == nil {
+			// Every hex digit but 0 is also a base58 character: a hex key
+			// without a 0 decodes as base58 too, usually into something that
+			// is not a multihash. When both readings are well-formed
+			// multihashes the key is ambiguous, and the base58 reading wins:
+			// that is the form the find client sends.
+			_, err = multihash.Decode(b)
 		}
-		if !isHex {
-			b, err = base58.Decode(mhStr)
-			if err != nil {
-				// Neither base58 nor the hex form of a multihash.
+		if err != nil {
+			if hb, herr := hex.DecodeString(mhStr); herr == nil {
+				b = hb
+			} else if len(b) == 0 {
+				// Neither base58 nor hex.
 				return nil, apierror.New(multihash.ErrInvalidMultihash, http.StatusBadRequest)
 			}
 		}
